@@ -28,8 +28,8 @@ CLAIMED = {
         technique='static analysis: construction-site enumeration + dominance by is_finite guard + value-origin dataflow on resolved MIR',
         design='2/C13'),
     'C09': dict(
-        level='proof',
-        text='Conservation of the accounted total proved as a structural theorem over all MIR bodies: the counter is mutated only by '
+        level='other',
+        text='(Level lowered from proof to other: one clause has a known finding, see below.) Conservation of the accounted total decided as a structural theorem over all MIR bodies: the counter is mutated only by '
              'allocate/deallocate; allocate is called only by Managed*::new and deallocate only by their Drop impls with the recorded size; '
              'Managed* literals occur only in new with size = allocate\'s result; every outcome of allocate is balanced (Ok: +size once and that '
              'size is returned, Err: net zero); no leak/duplication primitive outside the audited sort utilities; values are immutable after '
